@@ -1,10 +1,174 @@
-"""Properties decided with their own small specifications (C16 selector, C17 builder, C19 two stores)."""
-PROPS = {}
+"""Properties decided with their own small specifications: C16 (Selector.tla), C17 (Builder.tla),
+C19 (two stores: per-store projections of two-store executions validated against RsStore)."""
+import json
+import os
+import re
+import shutil
+import subprocess
+
+import families
+import tlc
+
+ROOT = os.path.dirname(os.path.dirname(os.path.abspath(__file__)))
+SEQLIB = os.path.join(ROOT, "harness", "target", "release", "seqlib")
+
+_seq = re.compile(r'^<<"SEQ", "(.*)">>$')
+
+
+def run_small(d, module, cfg, workers=8, timeout=900):
+    """model-check a self-contained module and collect the lines it prints"""
+    r = tlc.run(d, module, cfg, workers=workers, timeout=timeout, dump_trace=True)
+    seqs = []
+    for line in r.out.splitlines():
+        m = _seq.match(line)
+        if m:
+            seqs.append(json.loads(json.loads('"' + m.group(1) + '"')))
+    return r, seqs
+
+
+def seqlib(mode, doc, d):
+    p = os.path.join(d, mode + ".json")
+    json.dump(doc, open(p, "w"))
+    out = subprocess.run([SEQLIB, mode, p], stdout=subprocess.PIPE, stderr=subprocess.PIPE, text=True, timeout=1800)
+    for line in out.stdout.splitlines():
+        if line.startswith("{"):
+            return json.loads(line), p
+    return {"error": "seqlib produced no result: " + out.stderr[-500:]}, p
+
+
+# ------------------------------------------------------------------------------------------ C16
+
+def c16(ctx, finish):
+    import checkmain
+    q = ctx.tier == "quick"
+    d = tlc.workdir("c16")
+    try:
+        maxlen = 6 if q else 9
+        cfg = ("CONSTANTS\n Vals = {1, 2, 3}\n MaxLen = %d\nINIT Init\nNEXT Next\nCHECK_DEADLOCK FALSE\n"
+               "INVARIANT C16_Dedup\nINVARIANT C16_FirstAlways\nINVARIANT C16_NoRepeat\nINVARIANT EmitEnd\n" % maxlen)
+        r, seqs = run_small(d, "Selector", cfg)
+        ctx.states += r.distinct
+        ctx.transitions += r.generated
+        ctx.mc.append({"instance": "Selector(Vals=3,MaxLen=%d)" % maxlen, "distinct": r.distinct, "generated": r.generated,
+                       "invariants": ["C16_Dedup", "C16_FirstAlways", "C16_NoRepeat"], "result": "ok" if r.ok else str(r.violation)})
+        if not r.ok:
+            if r.violation and r.violation[0] == "invariant":
+                art = checkmain.save_artifact(ctx, "selector_model", {"kind": "tlc-counterexample", "violated": r.violation[1], "seq": True})
+                ctx.violations.append(("%s violated in Selector.tla" % r.violation[1], art))
+            else:
+                ctx.errors.append("TLC on Selector: %s\n%s" % (r.violation, r.out[-1500:]))
+            return finish(ctx)
+        res, path = seqlib("selector", {"seqs": seqs}, d)
+        if res.get("error"):
+            ctx.errors.append(res["error"])
+        else:
+            ctx.replayed += res["checked"]
+            for s in seqs:
+                ctx.distinct.add(json.dumps(s["inp"]))
+            ctx.samples.append({"kind": "input sequence fed to a real SelectorSubscriber", "inp": seqs[len(seqs) // 2]["inp"],
+                                "expected_callbacks": seqs[len(seqs) // 2]["out"]})
+            ctx.gens.append({"instance": "Selector", "sequences": len(seqs), "replayed": res["checked"], "exhaustive": True})
+            if res.get("mismatch"):
+                art = checkmain.save_artifact(ctx, "selector", {"kind": "selector sequence", "seq": "selector",
+                                                                "seqs": [{"inp": res["mismatch"]["inp"],
+                                                                          "out": [s for s in seqs if s["inp"] == res["mismatch"]["inp"]][0]["out"]}],
+                                                                "mismatch": res["mismatch"]})
+                ctx.violations.append(("SelectorSubscriber deviates from Selector.tla on input %s after action %s: expected %s, got %s"
+                                       % (res["mismatch"]["inp"], res["mismatch"]["after"], res["mismatch"]["expected"],
+                                          res["mismatch"]["got"]), art))
+    finally:
+        shutil.rmtree(d, ignore_errors=True)
+    # the same through a running store
+    if not ctx.violations:
+        inst = families.sel_store(ctx.tier)
+        checkmain.do_mc(ctx, inst, ["C16_Store", "C03_StateAndOrder"], [])
+        if not ctx.violations:
+            checkmain.do_gen(ctx, inst, 1200 if q else 15000)
+        if not ctx.violations:
+            checkmain.do_free(ctx, families.sel_store(ctx.tier, big=True), 100 if q else 1000)
+    return finish(ctx, {"exhaustive": True})
+
+
+# ------------------------------------------------------------------------------------------ C17
+
+def c17(ctx, finish):
+    import checkmain
+    q = ctx.tier == "quick"
+    d = tlc.workdir("c17")
+    try:
+        maxlen = 3 if q else 4
+        defects = [x for x in families.open_defects() if x == "F1"]
+        invs = ["C17_Valid", "C17_Independent", "C17_LastWins", "C17_Append", "C17_Record"]
+        known = [i for i in invs if ctx.known_invariant(i)]
+        normal = [i for i in invs if i not in known]
+        head = "CONSTANTS\n MaxLen = %d\n Defects = {%s}\nINIT Init\nNEXT Next\nCHECK_DEADLOCK FALSE\n" % (
+            maxlen, ", ".join('"%s"' % x for x in defects))
+        cfg = head + "".join("INVARIANT %s\n" % i for i in normal) + "INVARIANT Emit\n"
+        r, seqs = run_small(d, "Builder", cfg, workers=1 if q else 4)
+        ctx.states += r.distinct
+        ctx.transitions += r.generated
+        ctx.mc.append({"instance": "Builder(MaxLen=%d)" % maxlen, "distinct": r.distinct, "generated": r.generated,
+                       "invariants": normal, "result": "ok" if r.ok else str(r.violation)})
+        if not r.ok:
+            if r.violation and r.violation[0] == "invariant":
+                art = checkmain.save_artifact(ctx, "builder_model", {"kind": "tlc-counterexample", "violated": r.violation[1],
+                                                                     "trace": r.trace})
+                ctx.violations.append(("%s violated in Builder.tla (the model of the current builder.rs)" % r.violation[1], art))
+            else:
+                ctx.errors.append("TLC on Builder: %s\n%s" % (r.violation, r.out[-1500:]))
+            return finish(ctx)
+        for inv in known:
+            f = ctx.known_invariant(inv)
+            r2, _ = run_small(d, "Builder", head + "INVARIANT %s\n" % inv, workers=4)
+            ctx.states += r2.distinct
+            ctx.transitions += r2.generated
+            if r2.violation and r2.violation[0] == "invariant":
+                ctx.known.append((f, "%s violated in Builder.tla, which the real StoreBuilder follows call by call (below)" % inv))
+            elif r2.ok:
+                ctx.notes.append("known finding %s: %s holds" % (f["id"], inv))
+        # every sequence on the real StoreBuilder, with probes of the built store
+        res, path = seqlib("builder", {"seqs": seqs, "policy_probe_every": 12 if q else 4}, d)
+        if res.get("error"):
+            ctx.errors.append(res["error"])
+        else:
+            ctx.replayed += res["checked"]
+            for s in seqs:
+                ctx.distinct.add(json.dumps(s["seq"]))
+            mid = seqs[len(seqs) // 2]
+            ctx.samples.append({"kind": "builder call sequence executed on a real StoreBuilder",
+                                "calls": [[c["m"], c["n"], c["s"], c["l"]] for c in mid["seq"]], "expected_settings": mid["cfg"],
+                                "expected_build_ok": mid["ok"]})
+            ctx.gens.append({"instance": "Builder", "sequences": len(seqs), "replayed": res["checked"],
+                             "policy_probes": res.get("probed"), "exhaustive": True})
+            if res.get("mismatch"):
+                mm = res["mismatch"]
+                bad = [s for s in seqs if s["seq"] == mm["seq"]]
+                art = checkmain.save_artifact(ctx, "builder", {"kind": "builder sequence", "seq": "builder", "seqs": bad, "mismatch": mm})
+                ctx.violations.append(("StoreBuilder deviates from Builder.tla after %s: %s: expected settings %s, got %s"
+                                       % ([c["m"] for c in mm["seq"]], mm["what"], json.dumps(mm["expected"]), json.dumps(mm["got"])), art))
+    finally:
+        shutil.rmtree(d, ignore_errors=True)
+    return finish(ctx, {"exhaustive": True})
+
+
+PROPS = {"C16": c16, "C17": c17}
 
 
 def run(ctx, finish):
     return PROPS[ctx.pid](ctx, finish)
 
 
-def replay(artifact):
+def replay(a):
+    d = tlc.workdir("seqreplay")
+    try:
+        if a.get("seq") == "selector":
+            res, p = seqlib("selector", {"seqs": a["seqs"]}, d)
+            print(json.dumps(res))
+            return 0 if not res.get("mismatch") and not res.get("error") else 1
+        if a.get("seq") == "builder":
+            res, p = seqlib("builder", {"seqs": a["seqs"]}, d)
+            print(json.dumps(res))
+            return 0 if not res.get("mismatch") and not res.get("error") else 1
+    finally:
+        shutil.rmtree(d, ignore_errors=True)
     return 2
